@@ -48,6 +48,10 @@ def keysOfHeader (hdr : Bytes) (nonce : Option Nat) : Keys :=
   let w := fun i => ofLE ((h.drop (8*i)).take 8)
   mkKeys (w 0) (w 1) (w 2) (w 3)
 
+/-- the header bytes with the nonce spliced into the last four bytes (little endian), as
+`set_header_nonce` does for `Some(n)` — for EVERY `n`, zero included -/
+def spliceNonce (hdr : Bytes) (n : Nat) : Bytes := hdr.take (hdr.length - 4) ++ leBytes 4 n
+
 /-- the state of one context object -/
 structure Ctx where
   variant : Variant
